@@ -69,7 +69,7 @@ class Findings:
         return [(k, t) for p, k, t in self.open if p == prop]
 
 
-def write_evidence(prop, tier, coverage, assumptions, wall_s, violations, extra=None):
+def write_evidence(prop, tier, coverage, assumptions, wall_s, violations, extra=None, partial=False):
     ensure_dirs()
     ev = {
         "property_id": prop,
@@ -83,7 +83,12 @@ def write_evidence(prop, tier, coverage, assumptions, wall_s, violations, extra=
     }
     if extra:
         ev.update(extra)
-    path = os.path.join(EVID, f"{prop}.json")
+    # debugging runs restricted with --only never overwrite the evidence file of the full check
+    if partial:
+        os.makedirs(os.path.join(CACHE, "evidence_partial"), exist_ok=True)
+        path = os.path.join(CACHE, "evidence_partial", f"{prop}.json")
+    else:
+        path = os.path.join(EVID, f"{prop}.json")
     tmp = path + ".tmp"
     with open(tmp, "w") as f:
         json.dump(ev, f, indent=1, sort_keys=False)
